@@ -1,6 +1,7 @@
 package main
 
 import (
+	"runtime"
 	"bytes"
 	"context"
 	"fmt"
@@ -65,7 +66,20 @@ type solveResult struct {
 	output  string
 }
 
+// solverSlots bounds the number of solver processes to the number of cores, so that
+// wall-clock timeouts mean the same under load as in isolation.
+var solverSlots = make(chan struct{}, runtime.NumCPU())
+
 func runSolver(ctx context.Context, sp solverSpec, file string, timeout time.Duration) solveResult {
+	select {
+	case solverSlots <- struct{}{}:
+	case <-ctx.Done():
+		return solveResult{"unknown", sp.name, 0, "cancelled"}
+	}
+	defer func() { <-solverSlots }()
+	if ctx.Err() != nil {
+		return solveResult{"unknown", sp.name, 0, "cancelled"}
+	}
 	secs := int(timeout.Seconds())
 	if secs < 1 {
 		secs = 1
